@@ -24,6 +24,10 @@ CFG = {
         "Leptos.Park.Graph.C19_graph_clear_releases_own_lock",
         "Leptos.Park.Graph.C19_graph_check_sees_cross_thread_dirty",
         "Leptos.Park.Graph.C19_graph_torn_read_witness",
+        "Leptos.Park.Graph.C19_graph_no_lock_across_notify",
+        "Leptos.Park.Graph.C19_graph_deadlock_free",
+        "Leptos.Park.Graph.holdsOk_exec",
+        "Leptos.Park.Imm.C19_imm_memo_hang_witness",
         "Leptos.Park.Notify.C19_notify_not_stuck",
         "Leptos.Park.Notify.C19_notify_stuck_witness",
         "Leptos.Park.AwaitW.C19_await_writer_lost_wake_witness",
@@ -43,7 +47,7 @@ CFG = {
             "get||set, set;get||get (<=400 sampled in quick, all 1716 in thorough), get||hold;set;drop (<=400 / 3003), 5 signal read/write pairs, notify_subs||notify_subs (126) and update||await (3 x 10); "
             "memo GRAPHS (diamond zero/plus1/sum of seed r2-3, coarse/base, chains, 2-level sums: Check arm with several sources, mark_dirty/mark_check propagation, "
             "every reactivity lock acquisition a micro-step) under ~2000 seeded random schedules over 12 shapes x programs (20000 in thorough), gated at the memo:* points "
-            "incl. memo:cleared/memo:unlocked and at sources:clearing; 3-thread notify_subs (250 / 3000 random); thorough adds "
+            "incl. memo:cleared/memo:unlocked and at sources:clearing; 3-thread notify_subs (250 / 3000 random); single-thread ImmediateEffect on a memo / chain / diamond (42 programs); thorough adds "
             "await value/ref with 2 awaiters (2 x 4200) and channel 2x2 notifies (34650); the rest are seeded random schedules over larger configurations "
             "(up to 3 awaiters / 3 senders / 2 memo threads with 1-3 ops) and a few free-running effect stress runs (testing only, watchdog); "
             "distinct = distinct op line; every case is non-trivial (tags = scenario family)",
@@ -65,8 +69,8 @@ CFG = {
     "assumptions": [
         "one step = the code between two yield points; interleavings inside a step (e.g. inside ArcRwSignal::set) are not enumerated — the free-running stress covers them only as testing",
         "memo/signal lock-step scenarios have two threads (with three, two threads blocked on one lock would race for it for real)",
-        "graph scenarios: one signal, up to 5 memos, memo i reads only the signal and memos < i; deadlock-freedom of the repaired memo-graph lock order is shown by the "
-        "lock-order argument + replay, a general Lean proof over the frame machine is OPEN; owner disposal and arena access (owner/arena.rs) across threads are not driven",
+        "graph scenarios: one signal, up to 5 memos, memo i reads only the signal and memos < i; deadlock-freedom of the repaired memo-graph machine is PROVED for all interleavings "
+        "(C19_graph_deadlock_free, from `init`, i.e. lazily-dirty memos; a clean start is a program prefix of gets); ImmediateEffect is only modelled at the level hang / last value seen; owner disposal and arena access (owner/arena.rs) across threads are not driven",
     ],
     "manifest": {
         "category": "proof",
